@@ -196,3 +196,32 @@ def run(ctx):
     ]
     ctx.assumptions += ["0 < frame_shift <= frame_length", "numpy errors (shape mismatch) do not occur on the modelled paths; the tie would expose them"]
     return C.finish(ctx, "proof")
+
+
+def replay(ctx, rp):
+    """Re-run the recorded failing case on the implementation (chunked vs compute_full)."""
+    C.ensure_impl_path()
+    import json
+
+    f = rp.get("failure", {}).get("replay", {})
+    print(json.dumps(rp.get("failure", {}), indent=1, default=str)[:4000])
+    if not all(k in f for k in ("L", "S", "N")) or not isinstance(f.get("chunk_lengths"), list):
+        print("replay: nothing executable recorded (proof / correspondence failure): see the fields above")
+        return 0
+    cfg = (f["L"], f["S"], bool(f.get("centered")), bool(f.get("kaldi_shift")))
+    x = list(range(f["N"]))
+    ops, p0 = [], 0
+    for m in f["chunk_lengths"]:
+        ops.append(("chunk", x[p0:p0 + m]))
+        p0 += m
+    ops.append(("finalize",))
+    outs, _, _ = stft.run_history(cfg, ops)
+    fouts, _, _ = stft.run_history(cfg, [("full", x)])
+    got = [fr for o in outs if o is not None for fr in o]
+    print("streamed frames:", got)
+    print("compute_full frames:", fouts[0])
+    if got != fouts[0]:
+        print("VIOLATION property=C01 replay=(replayed case reproduces)")
+        return 1
+    print("replayed case does not reproduce on this tree")
+    return 0
